@@ -174,4 +174,248 @@ theorem sortSearch_spec (f : Nat → Bool) (n : Nat)
   searchLoop_spec f n mono n 0 n (by omega) (by omega) (Nat.le_refl _) (fun _ h => absurd h (Nat.not_lt_zero _))
     (fun h => absurd h (Nat.lt_irrefl _))
 
+
+/-! ### ASCII folding -/
+
+theorem lowerByte_toNat (b : UInt8) :
+    (lowerByte b).toNat = if 65 ≤ b.toNat ∧ b.toNat ≤ 90 then b.toNat + 32 else b.toNat := by
+  unfold lowerByte
+  simp only [UInt8.le_iff_toNat_le]
+  split
+  · rename_i h
+    have h' : 65 ≤ b.toNat ∧ b.toNat ≤ 90 := by simpa using h
+    rw [if_pos h', UInt8.toNat_add]
+    have : (32 : UInt8).toNat = 32 := rfl
+    omega
+  · rename_i h
+    have h' : ¬ (65 ≤ b.toNat ∧ b.toNat ≤ 90) := by simpa using h
+    rw [if_neg h']
+
+/-- a byte that is not a letter is the image of itself only -/
+theorem lowerByte_eq_iff (b c : UInt8) (hc : ¬ (97 ≤ c.toNat ∧ c.toNat ≤ 122)) (hc' : ¬ (65 ≤ c.toNat ∧ c.toNat ≤ 90)) :
+    lowerByte b = c ↔ b = c := by
+  rw [← UInt8.toNat_inj, lowerByte_toNat, ← UInt8.toNat_inj]
+  split <;> omega
+
+theorem lowerByte_idem (b : UInt8) : lowerByte (lowerByte b) = lowerByte b := by
+  rw [← UInt8.toNat_inj, lowerByte_toNat, lowerByte_toNat]
+  split <;> (try split) <;> omega
+
+theorem lower_idem (s : Bytes) : lower (lower s) = lower s := by
+  unfold lower
+  rw [List.map_map]
+  apply List.map_congr_left
+  intro a _
+  exact lowerByte_idem a
+
+/-- "not a letter" -/
+def NonLetter (c : UInt8) : Prop := ¬ (97 ≤ c.toNat ∧ c.toNat ≤ 122) ∧ ¬ (65 ≤ c.toNat ∧ c.toNat ≤ 90)
+
+theorem contains_lower (c : UInt8) (hc : NonLetter c) : ∀ s : Bytes, (lower s).contains c = s.contains c
+  | [] => rfl
+  | x :: xs => by
+    have ih := contains_lower c hc xs
+    unfold lower at *
+    simp only [List.map_cons, List.contains_cons]
+    rw [ih]
+    congr 1
+    have := lowerByte_eq_iff x c hc.1 hc.2
+    by_cases h : x = c
+    · have h2 := this.mpr h
+      simp [h, h2]
+    · have h2 : ¬ lowerByte x = c := fun e => h (this.mp e)
+      have h3 : ¬ c = lowerByte x := fun e => h2 e.symm
+      have h4 : ¬ c = x := fun e => h e.symm
+      simp [h3, h4]
+
+theorem nl_star : NonLetter cStar := by decide
+theorem nl_brace : NonLetter cBrace := by decide
+theorem nl_dot : NonLetter cDot := by decide
+theorem nl_colon : NonLetter cColon := by decide
+theorem nl_lbr : NonLetter cLBr := by decide
+theorem nl_rbr : NonLetter cRBr := by decide
+theorem nl_slash : NonLetter cSlash := by decide
+theorem nl_pct : NonLetter cPct := by decide
+
+theorem fuzzy_lower (e : Bytes) : fuzzy (lower e) = fuzzy e := by
+  unfold fuzzy
+  rw [contains_lower _ nl_brace, contains_lower _ nl_star]
+
+/-! ### the fast path of MatchHost -/
+
+theorem searchPred_mono (m : List Bytes) (t : Bytes) (hs : Sorted m) :
+    ∀ a b, a ≤ b → b < m.length → searchPred m t a = true → searchPred m t b = true := by
+  intro a b hab hb ha
+  by_cases e : a = b
+  · subst e; exact ha
+  have hab : a < b := by omega
+  have halt : a < m.length := by omega
+  unfold searchPred at *
+  rw [List.getElem?_eq_getElem halt] at ha
+  rw [List.getElem?_eq_getElem hb]
+  simp only [Bool.and_eq_true, Bool.not_eq_eq_eq_not, Bool.not_true] at ha ⊢
+  have hp := (List.pairwise_iff_getElem.mp hs) a b halt hb hab
+  unfold hostLess at hp
+  cases hfb : fuzzy m[b] with
+  | true => simp [hfb, ha.1] at hp
+  | false =>
+    simp [hfb, ha.1] at hp
+    exact ⟨rfl, bytesLt_neg_trans _ _ _ hp ha.2⟩
+
+theorem fastHit_iff (m : List Bytes) (t : Bytes) (hs : Sorted m) :
+    fastHit m t = true ↔ (t ∈ m ∧ fuzzy t = false) := by
+  have spec := sortSearch_spec (searchPred m t) m.length (searchPred_mono m t hs)
+  unfold fastHit
+  simp only [beq_iff_eq]
+  constructor
+  · intro h
+    have hlt : sortSearch m.length (searchPred m t) < m.length := by
+      rcases List.getElem?_eq_some_iff.mp h with ⟨hh, _⟩; exact hh
+    refine ⟨List.mem_iff_getElem?.mpr ⟨_, h⟩, ?_⟩
+    have := spec.2.1 hlt
+    unfold searchPred at this
+    rw [h] at this
+    simp only [Bool.and_eq_true, Bool.not_eq_eq_eq_not, Bool.not_true] at this
+    exact this.1
+  · intro ⟨hmem, hfz⟩
+    rcases List.mem_iff_getElem?.mp hmem with ⟨k, hk⟩
+    have hklt : k < m.length := by
+      rcases List.getElem?_eq_some_iff.mp hk with ⟨hh, _⟩; exact hh
+    have hpk : searchPred m t k = true := by
+      unfold searchPred; rw [hk]; simp [hfz, bytesLt_irrefl]
+    have hle : sortSearch m.length (searchPred m t) ≤ k := by
+      apply Nat.le_of_not_lt
+      intro hlt
+      have := spec.1 k hlt
+      rw [hpk] at this; cases this
+    have hplt : sortSearch m.length (searchPred m t) < m.length := by omega
+    have hpp := spec.2.1 hplt
+    by_cases e : sortSearch m.length (searchPred m t) = k
+    · rw [e]; exact hk
+    · have hlt : sortSearch m.length (searchPred m t) < k := by omega
+      have hp := (List.pairwise_iff_getElem.mp hs) _ k hplt hklt hlt
+      have hk' : m[k] = t := by
+        rcases List.getElem?_eq_some_iff.mp hk with ⟨_, hh⟩; exact hh
+      rw [hk'] at hp
+      unfold searchPred at hpp
+      rw [List.getElem?_eq_getElem hplt] at hpp ⊢
+      simp only [Bool.and_eq_true, Bool.not_eq_eq_eq_not, Bool.not_true] at hpp
+      unfold hostLess at hp
+      simp [hfz, hpp.1] at hp
+      rw [bytesLt_antisymm _ _ hpp.2 hp]
+
+theorem hostLoop_small (h : Bytes) : ∀ m : List Bytes, hostLoop false h m = m.any (entryMatches h)
+  | [] => rfl
+  | e :: es => by simp [hostLoop, hostLoop_small h es]
+
+/-- in a sorted slice the fuzzy entries come first, so breaking at the first exact entry
+    loses no fuzzy entry -/
+theorem hostLoop_large (h : Bytes) : ∀ m : List Bytes, Sorted m →
+    hostLoop true h m = m.any (fun e => fuzzy e && entryMatches h e)
+  | [], _ => rfl
+  | e :: es, hs => by
+    unfold Sorted at hs
+    rw [List.pairwise_cons] at hs
+    unfold hostLoop
+    cases hf : fuzzy e with
+    | true =>
+      simp only [Bool.not_true, Bool.and_false, Bool.false_eq_true, if_false, List.any_cons, hf, Bool.true_and]
+      rw [hostLoop_large h es hs.2]
+    | false =>
+      simp only [Bool.not_false, Bool.and_true, if_true, List.any_cons, hf, Bool.false_and, Bool.false_or]
+      symm
+      rw [List.any_eq_false]
+      intro x hx
+      have := hs.1 x hx
+      unfold hostLess at this
+      cases hfx : fuzzy x with
+      | true => simp [hfx, hf] at this
+      | false => simp
+
+theorem entryMatches_exact (h e : Bytes) (hf : fuzzy e = false) :
+    entryMatches h e = (lower h == lower e) := by
+  unfold entryMatches
+  unfold fuzzy at hf
+  simp only [Bool.or_eq_false_iff] at hf
+  rw [hf.2]
+  rfl
+
+theorem mem_map_lowerExact {x : Bytes} {l : List Bytes} (h : x ∈ l.map lowerExact) :
+    ∃ e, e ∈ l ∧ ((fuzzy e = true ∧ x = e) ∨ (fuzzy e = false ∧ x = lower e)) := by
+  rcases List.mem_map.mp h with ⟨e, he, hx⟩
+  refine ⟨e, he, ?_⟩
+  unfold lowerExact at hx
+  cases hf : fuzzy e with
+  | true => left; simp [hf] at hx; exact ⟨rfl, hx.symm⟩
+  | false => right; simp [hf] at hx; exact ⟨rfl, hx.symm⟩
+
+/-- **the large-list code path computes the linear scan.** -/
+theorem matchHost_large (thr : Nat) (l : List Bytes) (rhost : Bytes) (hl : l.length > thr) :
+    matchHost thr (sortHosts (l.map lowerExact)) rhost = l.any (entryMatches (stripPort rhost)) := by
+  have hperm := sortHosts_perm (l.map lowerExact)
+  have hs := sortHosts_sorted (l.map lowerExact)
+  have hlen : (sortHosts (l.map lowerExact)).length > thr := by
+    rw [hperm.length_eq, List.length_map]; exact hl
+  unfold matchHost
+  simp only [hlen, decide_true, Bool.true_and]
+  rw [hostLoop_large _ _ hs]
+  generalize stripPort rhost = h
+  rw [Bool.eq_iff_iff]
+  constructor
+  · intro hyp
+    rw [List.any_eq_true]
+    split at hyp
+    · rename_i hfast
+      rcases (fastHit_iff _ _ hs).mp hfast with ⟨hmem, hfz⟩
+      rcases mem_map_lowerExact (hperm.mem_iff.mp hmem) with ⟨e, he, ⟨hfe, hx⟩ | ⟨hfe, hx⟩⟩
+      · rw [hx, hfe] at hfz; cases hfz
+      · exact ⟨e, he, by rw [entryMatches_exact h e hfe, hx]; simp⟩
+    · rcases List.any_eq_true.mp hyp with ⟨x, hx, hxm⟩
+      simp only [Bool.and_eq_true] at hxm
+      rcases mem_map_lowerExact (hperm.mem_iff.mp hx) with ⟨e, he, ⟨hfe, hxe⟩ | ⟨hfe, hxe⟩⟩
+      · exact ⟨e, he, hxe ▸ hxm.2⟩
+      · rw [hxe, fuzzy_lower, hfe] at hxm; cases hxm.1
+  · intro hyp
+    rcases List.any_eq_true.mp hyp with ⟨e, he, hem⟩
+    cases hfe : fuzzy e with
+    | true =>
+      have hmem : e ∈ sortHosts (l.map lowerExact) := by
+        apply hperm.mem_iff.mpr
+        apply List.mem_map.mpr
+        exact ⟨e, he, by simp [lowerExact, hfe]⟩
+      split
+      · rfl
+      · exact List.any_eq_true.mpr ⟨e, hmem, by simp [hfe, hem]⟩
+    | false =>
+      rw [entryMatches_exact h e hfe] at hem
+      have hem : lower h = lower e := by simpa using hem
+      have hmem : lower h ∈ sortHosts (l.map lowerExact) := by
+        apply hperm.mem_iff.mpr
+        apply List.mem_map.mpr
+        exact ⟨e, he, by simp [lowerExact, hfe, hem]⟩
+      have : fastHit (sortHosts (l.map lowerExact)) (lower h) = true :=
+        (fastHit_iff _ _ hs).mpr ⟨hmem, by rw [hem, fuzzy_lower, hfe]⟩
+      simp [this]
+
+theorem matchHost_small (thr : Nat) (l : List Bytes) (rhost : Bytes) (hl : ¬ l.length > thr) :
+    matchHost thr l rhost = l.any (entryMatches (stripPort rhost)) := by
+  unfold matchHost
+  simp only [hl, decide_false, Bool.false_and, Bool.false_eq_true, if_false]
+  exact hostLoop_small _ _
+
+/-- Provision + Match, whatever the size and the threshold: duplicate check, then "some entry matches" -/
+theorem hostCase_eq (thr : Nat) (l : List Bytes) (rhost : Bytes) :
+    hostCase thr l rhost =
+      if hasDup (l.map lower) then .dup else .res (l.any (entryMatches (stripPort rhost))) := by
+  unfold hostCase provisionHost
+  split
+  · rfl
+  · split
+    · rename_i hl
+      simp only
+      rw [matchHost_large thr l rhost hl]
+    · rename_i hl
+      simp only
+      rw [matchHost_small thr l rhost hl]
+
 end CaddyModel.C06
